@@ -1,6 +1,10 @@
 mod outbound;
 mod session;
 
+#[cfg(minimq_verif)]
+pub use outbound::{VerifEntry, VerifOutbound};
+#[cfg(minimq_verif)]
+pub use session::verif::VerifSnapshot;
 pub use session::{Connection, Session};
 
 use crate::{
